@@ -483,9 +483,10 @@ Lemma fire_single n j s jb : s_jobs s = [jb] ->
   fire_n n j s =
   match j with
   | O => match j_kind jb with
-         | JContinue => continue_task (popped s jb)
-         | JComplete x i => complete_n n x i (popped s jb)
-         | JTimeout => if is_completed (s_state (popped s jb)) then popped s jb else complete_n n ERROR ITimeout (popped s jb)
+         | JContinue => if state_eqb (s_state s) RUNNING_DELAYED then continue_task (popped s jb) else popped s jb
+         | JComplete x i => if state_eqb (s_state s) RUNNING_DELAYED then complete_n n x i (popped s jb) else popped s jb
+         | JTimeout => if is_completed (s_state (popped s jb)) then popped s jb
+                       else complete_n n ERROR ITimeout (abandon (popped s jb))
          | JRefresh => popped s jb
          end
   | S _ => s
@@ -504,7 +505,7 @@ Proof.
     pose proof P as P0.
     cbn [Ph] in P. destruct P as (A & B & C & D & E & F & Gw & H & I & t0 & Ht0 & Hj).
     rewrite (fire_single _ _ _ _ Hj). destruct j as [|j]; [|split; [exact G|exists PWb; exact P0]].
-    cbn [j_kind]. unfold popped. cbn [j_at].
+    cbn [j_kind]. rewrite A. cbn [state_eqb]. unfold popped. cbn [j_at].
     split.
     + eapply (glob_new_act n s _ [] _ G); fields; try reflexivity.
       * intros Ee. apply early_mono in Ee. tauto.
@@ -522,7 +523,7 @@ Proof.
     pose proof P as P0.
     cbn [Ph] in P. destruct P as (A & B & C & D & E & F & h & a & i0 & Hh & Ha & Da & Hj & Hc & Hb).
     rewrite (fire_single _ _ _ _ Hj). destruct j as [|j]; [|split; [exact G|exists PWa; exact P0]].
-    cbn [j_kind j_at].
+    cbn [j_kind j_at]. rewrite A. cbn [state_eqb].
     pose proof G as (G1 & _). destruct (G1 h) as (Th & Rh); [rewrite Hh; left; reflexivity|].
     set (s1 := popped s (mkJob (h_time h + n_wa n) (JComplete (h_res h) i0))).
     assert (C1 : is_completed (s_state s1) = false) by (unfold s1, popped; fields; rewrite A; reflexivity).
@@ -565,7 +566,7 @@ Proof.
     pose proof P as P0.
     cbn [Ph] in P. destruct P as (A & B & C & D & E & F & Gr & H & I & J & K & at_ & Hj & Hat).
     rewrite (fire_single _ _ _ _ Hj). destruct j as [|j]; [|split; [exact G|exists PRt; exact P0]].
-    cbn [j_kind]. unfold popped. cbn [j_at].
+    cbn [j_kind]. rewrite A. cbn [state_eqb]. unfold popped. cbn [j_at].
     split.
     + eapply (glob_new_act n s _ (map _ (s_acts s)) _ G); fields; try reflexivity.
       * intros Ee. apply early_mono in Ee. tauto.
